@@ -380,23 +380,30 @@ func c12Client(r *Run, m *ServerModel) {
 		return
 	}
 	// the rversion variable
+	// the reply variable: the local of type rversion whose address is handed to sendRecv
 	rvName := ""
-	ast.Inspect(nc.Decl.Body, func(n ast.Node) bool {
-		if as, ok := n.(*ast.AssignStmt); ok && len(as.Lhs) == 1 && len(as.Rhs) == 1 {
-			if cl, ok := unparen(as.Rhs[0]).(*ast.CompositeLit); ok && strings.HasSuffix(types.TypeString(info.TypeOf(cl), nil), "p9.rversion") {
-				rvName = r.L.str(as.Lhs[0])
+	for _, s := range m.callsIn(nc, "p9.Client.sendRecv") {
+		if len(s.Call.Args) != 2 {
+			continue
+		}
+		if u, ok := unparen(s.Call.Args[1]).(*ast.UnaryExpr); ok && u.Op == token.AND {
+			if t := info.TypeOf(u.X); t != nil && strings.HasSuffix(types.TypeString(t, nil), "p9.rversion") {
+				rvName = r.L.str(u.X)
 			}
 		}
-		return true
-	})
+	}
 	if rvName == "" {
-		r.undecided("r5", "NewClient: reply variable", nc.Decl.Pos(), "no rversion{} reply variable found")
+		r.undecided("r5", "NewClient: reply variable", nc.Decl.Pos(), "no rversion reply variable handed to sendRecv found")
 		return
 	}
 	// success exit(s): return c, nil
 	var pvCall *ast.CallExpr
+	okName := "ok"
 	for _, s := range m.callsIn(nc, "p9.parseVersion") {
 		pvCall = s.Call
+		if as, isAs := r.L.parent(s.Call).(*ast.AssignStmt); isAs && len(as.Lhs) == 3 {
+			okName = m.resolver(nc).str(as.Lhs[2])
+		}
 	}
 	nSucc := 0
 	for _, ex := range db.Exits[nc] {
@@ -406,7 +413,7 @@ func c12Client(r *Run, m *ServerModel) {
 		isSucc := isNilIdent(info, unparen(ex.Ret.Results[1])) && !isNilIdent(info, unparen(ex.Ret.Results[0]))
 		if isSucc {
 			nSucc++
-			okP := ex.St.holds("ok", true) && ex.St.Must["p9.parseVersion"]
+			okP := ex.St.holds(okName, true) && ex.St.Must["p9.parseVersion"]
 			okL := false
 			for _, p := range ex.St.Paths {
 				for k, v := range p {
